@@ -23,7 +23,7 @@ func init() { register(c19{}) }
 func (c19) ID() string    { return "C19" }
 func (c19) Level() string { return "exploration" }
 func (c19) Rule() string {
-	return "String and Dump are called under a panic guard (a call that never returns is caught by the watchdog on CPU-time evidence) on: zero values and NewX() values of every exported type (packets, TopicFilter, UserProp, UserProperties, Malformed, ReasonCode, a CONNECT holding a zero-value will); every intermediate state of the C12 setter histories; every packet ReadPacket accepts from the hostile corpus of C04 and every partially filled packet a failed UnmarshalBinary leaves behind (zero, NewX() and reused receivers); and exhaustively all 256 values of every rendered byte: reason code on each packet that renders one and ReasonCode.String, the fixed-header byte (decode with each first byte), CONNECT flags and CONNACK flags (decode with each flag byte), subscription options (TopicFilter.String and SUBSCRIBE with each option byte). Output sanity: String() of a packet is non-empty and names its size in bytes. distinct = (type, state digest); non-trivial = state other than the zero value"
+	return "String and Dump are called under a panic guard (a call that never returns is caught by the watchdog on CPU-time evidence) on: zero values and NewX() values of every exported type (packets, TopicFilter, UserProp, UserProperties, Malformed, ReasonCode, a CONNECT holding a zero-value will); packets whose strings have every length 0..639 (and around 1000, 4096, 16384, 65535) with a failure reason code; every intermediate state of the C12 setter histories; every packet ReadPacket accepts from the hostile corpus of C04 and every partially filled packet a failed UnmarshalBinary leaves behind (zero, NewX() and reused receivers); and exhaustively all 256 values of every rendered byte: reason code on each packet that renders one and ReasonCode.String, the fixed-header byte (decode with each first byte), CONNECT flags and CONNACK flags (decode with each flag byte), subscription options (TopicFilter.String and SUBSCRIBE with each option byte). Output sanity: String() of a packet is non-empty and names its size in bytes. distinct = (type, state digest); non-trivial = state other than the zero value"
 }
 func (c19) Assumptions() []string {
 	return []string{"a typed-nil pointer is not a packet value", "Dump writes to a harness-owned bytes.Buffer"}
@@ -37,7 +37,7 @@ func (c19) Phases(env run.Env) []run.Phase {
 	if env.Thorough {
 		nh = 1500000
 	}
-	out := []run.Phase{{Name: "zero-and-fresh-values", N: 5}, {Name: "setter-histories", N: nh}, {Name: "rendered-bytes", N: 256}}
+	out := []run.Phase{{Name: "zero-and-fresh-values", N: 5 + 16}, {Name: "setter-histories", N: nh}, {Name: "rendered-bytes", N: 256}}
 	for _, p := range hostilePhases(env) {
 		p.Name = "hostile-" + p.Name
 		out = append(out, p)
@@ -88,8 +88,75 @@ func (c19) Run(c *run.Ctx, phase, idx int) {
 	}
 }
 
+// c19Lengths renders packets whose string fields have every length in a
+// range (truncation and clipping code goes wrong at one particular length).
+func c19Lengths(c *run.Ctx, part int) {
+	r := rng(c.Env, "C19len", 0, part)
+	lens := make([]int, 0, 48)
+	for L := part * 40; L < part*40+40; L++ { // 16 parts: 0..639
+		lens = append(lens, L)
+	}
+	lens = append(lens, 1000+part, 4095+part%3, 16383+part%3, 65533+part%3)
+	for _, L := range lens {
+		if L > 65535 {
+			continue
+		}
+		str := gen.UTF8(r, L)
+		for t := 1; t < 16; t++ {
+			p := bind.New(t)
+			what := fmt.Sprintf("strings of %d bytes on %s", L, tname(t))
+			mon.Guard(func() {
+				if rc, ok := p.(interface{ SetReasonCode(mq.ReasonCode) }); ok {
+					rc.SetReasonCode(mq.ReasonCode(0x80 + byte(L%35)))
+				}
+				if rs, ok := p.(interface{ SetReasonString(string) }); ok {
+					rs.SetReasonString(str)
+				}
+				if up, ok := p.(interface{ AddUserProp(...string) }); ok {
+					up.AddUserProp(str, str)
+				}
+				switch x := p.(type) {
+				case *mq.Connect:
+					x.SetClientID(str)
+					x.SetUsername(str)
+					x.SetAuthMethod(str)
+					w := mq.Pub(1, str, str)
+					w.SetContentType(str)
+					x.SetWill(w)
+				case *mq.ConnAck:
+					x.SetAssignedClientID(str)
+					x.SetResponseInformation(str)
+					x.SetServerReference(str)
+				case *mq.Publish:
+					x.SetTopicName(str)
+					x.SetCorrelationData([]byte(str))
+					x.SetResponseTopic(str)
+					x.SetPayload([]byte(str))
+				case *mq.Subscribe:
+					x.AddFilters(mq.NewTopicFilter(str, mq.Opt(L)))
+				case *mq.Unsubscribe:
+					x.AddFilter(str)
+				case *mq.SubAck:
+					x.AddReasonCode(mq.ReasonCode(L))
+				case *mq.Auth:
+					x.SetAuthMethod(str)
+				}
+			})
+			render(c, what, p, func() map[string]interface{} { return map[string]interface{}{"string_length": L, "type": tname(t)} })
+		}
+		c.Distinct(run.Hash64("strlen", itoa(L)), true)
+	}
+	if part == 5 {
+		c.Sample(map[string]interface{}{"values": "reason string, user property, client id, user name, topic, filter, ... of every length 200..239 (this part), on every packet type, reason code >= 0x80", "operations": "String, Dump"})
+	}
+}
+
 func c19Zero(c *run.Ctx, idx int) {
 	none := func() map[string]interface{} { return map[string]interface{}{} }
+	if idx >= 5 {
+		c19Lengths(c, idx-5)
+		return
+	}
 	switch idx {
 	case 0: // zero values
 		for t := 0; t < 16; t++ {
